@@ -1,0 +1,57 @@
+//go:build verif
+
+package usersavedqueries
+
+// C20 (keyed-store half, saved queries): the in-memory map of a tenant is
+// mirrored to the tenant's JSON file by every mutating operation that reports
+// success.  A ghost flag per tenant, usqSynced, is cleared at each mutation
+// of the tenant's map and set only where the file is (re)written or removed;
+// a writeUsq / deleteUsq / deleteAllUsq that reports success on a synced
+// store must leave it synced, and the file touched must be the tenant's own.  Strings and the JSON
+// encoding are opaque: the file name is the uninterpreted usqFile(myid).
+// Checked by /verif/bin/govc.  Comment-only file.
+//@ ghostdecl usqSynced int
+
+//@ func getUsqFileName
+//@   assumed
+//@   mode int
+//@   pure
+//@   ensures result == uf("usqFile", string, myid)
+//@ end
+
+//@ func writeSavedQueries
+//@   props C20
+//@   mode int
+//@   modifies ghost(myid, "usqSynced")
+//@   site call os.WriteFile #1:
+//@     assert [file-of-tenant] arg0 == uf("usqFile", string, myid)
+//@     ghostset ghost(myid, "usqSynced") = 1
+//@   ensures [mirrored] implies(result == nil, ghost(myid, "usqSynced") == 1)
+//@ end
+
+//@ func deleteUsq
+//@   props C20
+//@   mode int
+//@   site call delete #1:
+//@     ghostset ghost(myid, "usqSynced") = 0
+//@   ensures [delete-persisted] implies(result1 == nil && old(ghost(myid, "usqSynced")) == 1, ghost(myid, "usqSynced") == 1)
+//@ end
+
+//@ func writeUsq
+//@   props C20
+//@   mode int
+//@   site mapupdate localUSQInfo[myid][qname] #1:
+//@     ghostset ghost(myid, "usqSynced") = 0
+//@   ensures [write-persisted] implies(result == nil && old(ghost(myid, "usqSynced")) == 1, ghost(myid, "usqSynced") == 1)
+//@ end
+
+//@ func deleteAllUsq
+//@   props C20
+//@   mode int
+//@   site call delete #1:
+//@     ghostset ghost(myid, "usqSynced") = 0
+//@   site call os.Remove #1:
+//@     assert [file-of-tenant] arg0 == uf("usqFile", string, myid)
+//@     ghostset ghost(myid, "usqSynced") = 1
+//@   ensures [delete-all-persisted] implies(result == nil && old(ghost(myid, "usqSynced")) == 1, ghost(myid, "usqSynced") == 1)
+//@ end
